@@ -123,6 +123,9 @@ package types
 //@   requires m != nil
 //@   modifies *m, array byte, array string, m.Xattrs[*]
 //@   loop 0 invariant xattrs_own: m.Xattrs == old(m.Xattrs) || fresh(m.Xattrs)
+// decoding never over-allocates: a buffer is made for a length the input announces only after that
+// many bytes have been found present in the input
+//@   at call make: no_more_than_the_input_holds: arg0 <= len(dAtA)
 
 // the exported entry points use the copying decoder (never the Unsafe variant,
 // whose results alias the caller's buffer)
